@@ -22,9 +22,10 @@ Forms == {"int", "str"}
 
 \* the keys of the configuration: cert_file (+ additional_cert_files) sign, encryption_keypairs encrypt.  Generated
 \* metadata publishes the first kind with use="signing" and the second with use="encryption" -- each under its own use
-EncKeys == {"none", "one", "two"}
+\* "same": the encryption key pair is the signing key pair (one certificate, published under both uses)
+EncKeys == {"none", "one", "two", "same"}
 SignCerts(s) == IF s.extraSign THEN {"kSp", "kIdp1b"} ELSE {"kSp"}
-EncCerts(s) == CASE s.encKeys = "none" -> {} [] s.encKeys = "one" -> {"kSpEnc1"} [] OTHER -> {"kSpEnc1", "kSpEnc2"}
+EncCerts(s) == CASE s.encKeys = "none" -> {} [] s.encKeys = "one" -> {"kSpEnc1"} [] s.encKeys = "same" -> {"kSp"} [] OTHER -> {"kSpEnc1", "kSpEnc2"}
 \* the key dimensions are varied on the single-endpoint layouts
 WellFormed(s) == (s.encKeys # "one" \/ s.extraSign) => Len(s.layout) = 1 /\ s.layout[1].idx = "none" /\ s.form = "str"
 
